@@ -130,7 +130,12 @@ def _operand(x, fmt):
     # a unary expression used as an operand keeps its own parentheses, so that the rendering
     # denotes the same expression tree under Python's operator precedence
     s = fmt(x)
-    return "(%s)" % (s,) if isinstance(x, UniExpr) else s
+    if isinstance(x, UniExpr):
+        return "(%s)" % (s,)
+    if isinstance(x, (int, float)) and not isinstance(x, bool) and x < 0:
+        # (-1) ** this.x must not read as -(1 ** this.x)
+        return "(%s)" % (s,)
+    return s
 
 
 class UniExpr(ExprMixin):
